@@ -126,6 +126,7 @@ fn worker_dispatch(engine: &str) -> Box<dyn Fn(&Value) -> Value> {
         "c13_e2" => Box::new(c13::e2_cell),
         "c13_e2_abort" => Box::new(c13::e2_abort_cell),
         "e2_xfer" => Box::new(e2_xfer::cell),
+        "e2_wrap" => Box::new(e2_xfer::wrap_cell),
         "c03" => Box::new(e2_c03::cell),
         "c05" => Box::new(e2_c05::cell),
         "c06" => Box::new(e2_c06::cell),
@@ -201,6 +202,7 @@ fn replay(path: &str) -> i32 {
         "c13_two" => c13::replay_two(r),
         "c13_e2" => c13::replay_e2(r),
         "e2_xfer" => e2_xfer::replay(r),
+        "e2_wrap" => format!("{}", e2_xfer::wrap_cell(&r["spec"])["violations"]),
         "e2_c03" => e2_c03::replay(r),
         "e2_c05" => e2_c05::replay(r),
         "e2_c06" => e2_c06::replay(r),
